@@ -355,7 +355,7 @@ func (pc ParseContext) compileArrow(ctx context.Context, b ast.Branch, name stri
 			case "nest":
 				expr = parseNest(expr, branch["nest"].(ast.One).Node.(ast.Branch))
 			case "unnest":
-				panic("unfinished")
+				return nil, fmt.Errorf("unnest is not supported yet")
 			case "ARROW":
 				op := d.(ast.One).Node.One("").(ast.Leaf).Scanner()
 				f := binops[op.String()]
